@@ -494,6 +494,26 @@ func (c *checker) digits() (n int64) {
 	return n
 }
 
+// long: documents of more cells than any counter or table inside the implementation is
+// likely to be sized for (just below and above 2^16 cells, and 100000), through every function
+// that sees the whole text.
+func (c *checker) long() (n int64) {
+	line := strings.Repeat("ab cd "+styleA+" ", 9) + "xyz\n" // 76 cells with the line feed
+	for _, cells := range []int{65535, 65537, 100000} {
+		in := strings.Repeat(line, cells/76) + strings.Repeat("z", cells%76)
+		inC, _, _ := oracle.Cells(in)
+		for _, w := range []int{80, 4096} {
+			c.wrap(in, inC, w)
+			c.dumbWrap(in, inC, w)
+			n += 2
+		}
+		c.pad(in, inC, 80)
+		c.indent(in, inC)
+		n += 2
+	}
+	return n
+}
+
 func (c *checker) wideOne(in string) (n int64) {
 	inC, _, _ := oracle.Cells(in)
 	for _, w := range []int{79, 80, 81, 159, 160, 161, 200, 255, 256, 257, 1000, 4096, 4097} {
@@ -515,7 +535,7 @@ func main() {
 	r := ev.New("C13", "exploration",
 		"every string of cells over Σ6={a,b,space,newline,styled a,styled space} up to the length bound and over "+
 			"Σ10={a,space,newline,styled a,wide 字,NBSP,e,combining accent,tab,the replacement character U+FFFD} up to a smaller bound and over ΣC={a,b,space,newline,c with a curly underline ESC[4:3m,d with a colon-form colour} one shorter than Σ6, each run through Wrap/DumbWrap/Pad at "+
-			"widths 1..W (W=5 quick, 7 thorough), Indent with 3 prefixes x includeFirst, Snip at widths 1..4 x heights 1..3 x 2 ellipses, SetLength at 1..W; plus every function at 13 widths around 80, 160, 256, 1000 and 4096 on all strings of length <=2 and 8 long strings; every text of length <=4 over {a,1,2,space} at 12 widths made of the same digits, visited in two orders; "+
+			"widths 1..W (W=5 quick, 7 thorough), Indent with 3 prefixes x includeFirst, Snip at widths 1..4 x heights 1..3 x 2 ellipses, SetLength at 1..W; plus every function at 13 widths around 80, 160, 256, 1000 and 4096 on all strings of length <=2 and 8 long strings; three documents of 65535, 65537 and 100000 cells (lines of 76) through Wrap/DumbWrap at widths 80 and 4096, Pad at 80 and Indent; every text of length <=4 over {a,1,2,space} at 12 widths made of the same digits, visited in two orders; "+
 			"distinct_nontrivial counts distinct input strings of length >= 2 that contain whitespace and a visible cell")
 	c := &checker{r}
 	if *ev.FlagReplay != "" {
@@ -563,6 +583,7 @@ func main() {
 	run(sigma9, n9)
 	run(sigmaC, n6-1)
 	r.Eval(c.wide())
+	r.Eval(c.long())
 	r.Eval(c.digits())
 	r.Sample(map[string]any{"input": build(sigma6, 123456, n6), "functions": "Wrap,DumbWrap,Pad w=1..7; Indent; Snip; SetLength"})
 	r.Sample(map[string]any{"input": build(sigma9, 4242, n9)})
